@@ -32,6 +32,16 @@ TREES = {
              # key values that contain the characters a composite key might be joined with
              'x,b': D({'f.c': F(3), 'g': F(1)}), 'x': D({'g.b,c': F(4), 'h.c': F(5), 'i|j.k': F(6)}), 'x|i': D({'j.k': F(7)})},
 }
+# two entries, adjacent in every arrival order, whose key values differ but concatenate to the same text under one key order
+ADJ = {
+    'adj-dir-ext': {'lib': D({'x.c': F(3)}), 'libc': D({'README': F(5)})},
+    'adj-len-ext': {'p.1x': F(1), 'q' * 39 + '.x': F(11)},
+    'adj-uid-ext': {'f.0a': F(2, uid=1), 'g.a': F(7, uid=10)},
+    'adj-ext-uid': {'h.a1': F(2, uid=0), 'i.a': F(7, uid=10)},
+}
+TREES.update(ADJ)
+# a bare column that is neither a key nor aggregated may show anything, but must not disturb the aggregates next to it
+BARE = [['size', 'min(size)', 'max(size)'], ['size', 'count(*)', 'sum(size)'], ['name', 'size', 'max(size)', 'min(size)', 'avg(size)']]
 WHERES = [(None, lambda e: True), ('size gt 2', lambda e: e['size'] > 2), ('size gt 99999999', lambda e: False)]
 
 
@@ -65,7 +75,20 @@ def orders(keys, aggs, ncols, aggfirst):
 
 
 def groups(tier, seed):
+    for tname in ADJ:
+        for kl in keylists(tier):
+            if len(kl) == 2:
+                yield {'tree': tname, 'keys': kl, 'cases': [{'aggs': AGGS[ai], 'where': 0, 'aggfirst': False, 'order': ob}
+                                                            for ai in (0, 2) for ob in (None, kl[0])]}
+    for tname in ('small', 'rich'):
+        for kl in keylists('quick'):
+            if len(kl) == 1 or tier == 'thorough':
+                yield {'tree': tname, 'keys': kl, 'cases': [{'aggs': b, 'where': wi, 'aggfirst': False, 'order': ob, 'bare': nb}
+                                                            for b, nb in ((BARE[0], 1), (BARE[1], 1), (BARE[2], 2)) for wi in (0, 1)
+                                                            for ob in (None, kl[0] + ' desc')]}
     for tname in TREES:
+        if tname in ADJ:
+            continue
         for kl in keylists(tier):
             cases = []
             for ai, aggs in enumerate(AGGS):
@@ -80,7 +103,7 @@ def groups(tier, seed):
 
 def single(case):
     return {'tree': case['tree'], 'keys': case['keys'],
-            'cases': [{k: case[k] for k in ('aggs', 'where', 'aggfirst', 'order')}]}
+            'cases': [{k: case[k] for k in ('aggs', 'where', 'aggfirst', 'order', 'bare') if k in case}]}
 
 
 def entries(root):
@@ -118,6 +141,7 @@ def eval_group(env, group, tier):
             ents = [e for e in allents if pred(e)]
             aggs = c['aggs']
             cols = (aggs + keys) if c['aggfirst'] else (keys + aggs)
+            aggs = aggs[c.get('bare', 0):]      # leading bare columns are selected but not judged
             w = (' where ' + wtext) if wtext else ''
             q = ', '.join(cols) + ' from .' + w + ' group by ' + ', '.join(keys)
             if c['order']:
